@@ -9,6 +9,8 @@ import zlib
 from lib import vlex
 
 KINDS = ("resize", "split", "join", "comment", "allcomment", "case", "tabs")
+# kinds used by the parse-only checks (C05, C04) in addition; not part of the fix-run universe
+EXTRA_KINDS = ("blankline", "wsline", "bcomment")
 
 _IGNORE_MARKERS = ("vhdl_comp_off", "translate_off", "synthesis", "pragma", "rtl_synthesis", "altera", "synopsys", "xilinx", "vsg_")
 
@@ -83,6 +85,28 @@ def transform(text, kind, k=0):
                     continue
                 if r < p:
                     out.append(t.replace("\n", "\n  -- own" + str(i) + "\n", 1))
+                    continue
+            if kind == "blankline" and i > 0 and nextk is not None and prevk not in (None, "pre") and nextk != "pre":
+                # an EMPTY line between two tokens (at an existing line break, or at a space inside a line)
+                if "\n" in t and rng.random() < p:
+                    out.append(t.replace("\n", "\n\n", 1))
+                    continue
+                if "\n" not in t and prevk != "lcom" and nextk != "lcom" and rng.random() < p / 3:
+                    out.append("\n\n" + " " * rng.choice([0, 2, 4]))
+                    continue
+            if kind == "wsline" and "\n" in t and i > 0 and nextk is not None and prevk != "pre" and nextk != "pre":
+                # a line holding only blanks / tabs
+                if rng.random() < p:
+                    out.append(t.replace("\n", "\n" + rng.choice(["  ", "\t", " \t ", "    "]) + "\n", 1))
+                    continue
+            if kind == "bcomment" and i > 0 and nextk is not None and prevk not in ("lcom", "pre", None) and nextk != "pre":
+                # a delimited comment at a line end or on its own line (the property speaks of exactly those)
+                r = rng.random()
+                if "\n" in t and r < p / 2:
+                    out.append(t.replace("\n", " /* b%d */\n" % i, 1))
+                    continue
+                if "\n" in t and r < p:
+                    out.append(t.replace("\n", "\n  /* own%d */\n" % i, 1))
                     continue
             if kind == "allcomment" and "\n" in t and i > 0 and prevk not in ("lcom", "pre", None):
                 # a comment at EVERY line end that does not have one
